@@ -36,6 +36,15 @@ theorem sched_channel_bounded (s : St) (h : SReachable s) : s.queue.length ≤ 9
   rw [this] at h2
   exact h2
 
+/-- a poster sits blocked inside `Schedule` only while all 9 slots are taken (nobody waits at a channel with room) -/
+theorem sched_blocked_only_when_full (s : St) (h : SReachable s) (hb : s.blocked ≠ []) : s.queue.length = 9 := by
+  have hle := sched_channel_bounded s h
+  obtain ⟨ops, rfl⟩ := h
+  have hf := full_run ops init inv_init (by simp [Full, init]) hb
+  rw [run_cap ops init] at hf
+  have : init.cap = 9 := rfl
+  omega
+
 /-- **exactly once, in per-mailbox post order**: for every mailbox, what its invoker has
 received followed by what is still pending is exactly what was posted to it, in order —
 whatever mixture of buffered, blocked and immediately executed runs produced it -/
